@@ -116,7 +116,7 @@ type context struct {
 
 	handlers []Handler // The list of handlers to be executed.
 	action   Handler   // The last action handler to be executed.
-	index    int       // The index of the current handler that is being executed.
+	index    int       // The index of the next handler to be executed.
 
 	responseWriter ResponseWriter // The http.ResponseWriter wrapper for the coming request.
 	request        *Request       // The http.Request wrapper for the coming request.
@@ -157,7 +157,6 @@ func (c *context) URLPath(name string, pairs ...string) string {
 }
 
 func (c *context) Next() {
-	c.index++
 	c.run()
 }
 
@@ -203,17 +202,18 @@ func (c *context) run() {
 			h = c.handlers[c.index]
 		}
 
+		// The index always points to the next handler that has not been started, so
+		// that Next() called any number of times from a handler never skips one.
+		c.index++
 		if h == nil {
-			c.index++
 			return
 		}
 
 		vals, err := c.Invoke(h)
 		if err != nil {
 			panic(fmt.Sprintf("unable to invoke the %s handler [%s:%T]: %v",
-				ordinalize(c.index), runtime.FuncForPC(reflect.ValueOf(h).Pointer()).Name(), h, err))
+				ordinalize(c.index-1), runtime.FuncForPC(reflect.ValueOf(h).Pointer()).Name(), h, err))
 		}
-		c.index++
 
 		// If the handler returned something, write it to the response.
 		if len(vals) > 0 {
